@@ -89,11 +89,15 @@ def run(tier, seed):
         for k, q in enumerate(rows):
             F, promised, avail, frames = q["F"], q["promised"], q["avail"], q["frames"]
             raw = data_bytes(avail, F if k % 2 else 0)
+            hs_ = HEADER_SIZES[(k // 2) % len(HEADER_SIZES)]
+            # (a header with a lot of metadata: the mandatory fields then lie across byte 1024, in the part of a long
+            # header that is read second)
+            lead = ["note_%03d -s10 abcdefghij" % j for j in range(37 + k % 5)] if hs_ >= 1536 and k % 3 != 1 else []
             if F % 2 == 0 and k % 3 != 2:
                 nchan, coding, bf = F // 2, "pcm", ("01", "10")[k % 2]
                 # (sample_coding defaults to pcm: headers written without it - TIMIT's, for one - are well-formed)
                 hdr = sph_util.header(nchan, promised, 2, bf, "pcm", HEADER_SIZES[(k // 2) % len(HEADER_SIZES)],
-                                      omit=("sample_coding",) if k % 4 == 3 else ())
+                                      omit=("sample_coding",) if k % 4 == 3 else (), lead=lead)
                 used = raw[: frames * F].tobytes()
                 want = np.frombuffer(used, dtype="<i2" if bf == "01" else ">i2").astype(np.int16)
                 dtype_arg = None
@@ -104,7 +108,7 @@ def run(tier, seed):
                 nchan, coding = F, ("ulaw", "alaw")[k % 2]
                 # (sample_byte_format says nothing about one-byte samples and may be absent)
                 hdr = sph_util.header(nchan, promised, 1, "1", coding, HEADER_SIZES[(k // 2) % len(HEADER_SIZES)],
-                                      omit=("sample_byte_format",) if k % 4 == 1 else ())
+                                      omit=("sample_byte_format",) if k % 4 == 1 else (), lead=lead)
                 codes = raw[: frames * F]
                 dtype_arg = (np.uint8, np.int8)[(k // 5) % 2] if k % 5 == 0 else None  # a 1-byte dtype: the raw codes
                 want = codes.astype(dtype_arg) if dtype_arg is not None else (ulaw if coding == "ulaw" else alaw)[codes]
@@ -137,7 +141,9 @@ def run(tier, seed):
                     run.violation({"kind": "sphere_read_raised", "case": q, "coding": coding, "channels": nchan, "error": repr(e)})
                     continue
             run.evaluations += 1
-            warned = any("samples expected" in str(x.message) for x in w)
+            # (any warning the library itself issues counts - its wording is not part of the property; numpy's arithmetic
+            # RuntimeWarnings and deprecation notices are not the library speaking)
+            warned = any(issubclass(x.category, UserWarning) for x in w)
             if got.shape != want.shape or got.dtype != want.dtype or got.tobytes() != want.tobytes():
                 first = None
                 if got.shape == want.shape and got.size and np.any(got != want):
